@@ -17,7 +17,7 @@ func init() { register("C14", runC14) }
 // C14: all 65 536 lifecycle values through the state mapping, the validator,
 // both profiles' setters and getters, and getter/Validate on a decoded claim.
 func runC14(c *mon.Ctx) {
-	c.Rule("exhaustive: every uint16 lifecycle value v through LifeCycleToState, IsValid, String, ValidateSecurityLifeCycle, P1/P2 setter+getter on a fresh object (also on the two extension types embedding them under another canonical name and on struct literals without canonical name) and on objects that already hold the same / a neighbouring / a valid value, and getter+Validate of a CBOR-decoded and of a JSON-decoded token carrying v; for each v also the numbers v+2^16, v+0xffff*2^16 and v+2^32 (no state at all) in CBOR and JSON tokens, which must never be accepted nor reported by the getter; distinct = distinct (value) cases, non-trivial = all (each value exercises 10 calls)")
+	c.Rule("exhaustive: every uint16 lifecycle value v through LifeCycleToState, IsValid, String, the exported state type itself (LifeCycleState(v).String / IsValid for every v), a by-value struct copy taken before a second Set, ValidateSecurityLifeCycle, P1/P2 setter+getter on a fresh object (also on the two extension types embedding them under another canonical name and on struct literals without canonical name) and on objects that already hold the same / a neighbouring / a valid value, and getter+Validate of a CBOR-decoded and of a JSON-decoded token carrying v; for each v also the numbers v+2^16, v+0xffff*2^16 and v+2^32 (no state at all) in CBOR and JSON tokens, which must never be accepted nor reported by the getter; distinct = distinct (value) cases, non-trivial = all (each value exercises 10 calls)")
 	c.Exhaustive(true)
 	c.Floor("values", 65536)
 	g := model.NewGen(c.Seed)
@@ -62,6 +62,51 @@ func runC14(c *mon.Ctx) {
 				bad("ValidateSecurityLifeCycle", err)
 			} else if err != nil && obs.ClassOf(err) != model.WrongSyntax {
 				bad("ValidateSecurityLifeCycle-class", err)
+			}
+			// the exported state type is total as well: every value of LifeCycleState
+			// (not only those LifeCycleToState returns) has a name and a validity
+			{
+				ls := psatoken.LifeCycleState(u)
+				nm, iv := ls.String(), ls.IsValid()
+				c.Eval()
+				wantValid := v <= 6
+				wn := "invalid"
+				if wantValid {
+					wn = model.LifecycleNames[v]
+				}
+				if nm != wn || iv != wantValid {
+					bad("LifeCycleState(v).String/IsValid", fmt.Sprint(nm, iv))
+				}
+			}
+			// a by-value COPY of a claims struct (a snapshot, a template) keeps its
+			// value when the original is given another valid value afterwards
+			if want >= 0 {
+				other := uint16(0x3000)
+				if u == other {
+					other = 0x2000
+				}
+				for p := 1; p <= 2; p++ {
+					o, _ := psatoken.NewClaims(map[int]string{1: model.P1Name, 2: model.P2Name}[p])
+					if o.SetSecurityLifeCycle(u) != nil {
+						continue
+					}
+					var snap psatoken.IClaims
+					if q := obs.P1Of(o); q != nil {
+						cp := *q
+						snap = &cp
+					} else if q := obs.P2Of(o); q != nil {
+						cp := *q
+						snap = &cp
+					}
+					_ = o.SetSecurityLifeCycle(other)
+					c.Eval()
+					if got, gerr := snap.GetSecurityLifeCycle(); gerr != nil || got != u {
+						bad(fmt.Sprintf("P%d.struct-copy-changed-by-later-Set", p), fmt.Sprint(got, gerr))
+					}
+					if got, gerr := o.GetSecurityLifeCycle(); gerr != nil || got != other {
+						bad(fmt.Sprintf("P%d.Get-after-second-Set", p), fmt.Sprint(got, gerr))
+					}
+				}
 			}
 			// claims types that EMBED the base implementations under another canonical
 			// name (extension profiles) or under none (struct literals) share the rule
